@@ -120,6 +120,7 @@ class Obsolescence(Harness):
         obsolete = self._ancestors(parents, edited)
         cl = []
         for i, flag in enumerate(out["flags"]):
+            if flag is None: continue            # a list the program has let go of: nobody can use it
             want = i in obsolete
             what = "the edited list" if i == edited else "an ancestor of the edited list" if want else \
                    "the list returned by the editing method" if i == len(out["flags"]) - 1 else "not an ancestor (or cut off by deepcopy)"
@@ -129,6 +130,20 @@ class Obsolescence(Harness):
             if "first_use" in out and want and out["warnings_total"][i] == 1:
                 pass
         return cl
+
+class ObsolescenceChained(Obsolescence):
+    """method chains: before the edit the program drops every list but the original and the one it edits through
+    (x.filter(...).sort(...).modify(...)); the original is still an ancestor and must be marked"""
+    def __init__(self, depth, methods=None):
+        Obsolescence.__init__(self, depth, methods)
+        self.name = f"C17.obsolescence_chained.d{depth}"
+        self.bounds = dict(self.bounds, released="before the edit, every list except the original and the edited one is unreferenced and collected")
+    def build(self, ctx):
+        inp = Obsolescence.build(self, ctx)
+        inp["first_use"] = "named"
+        last = inp["steps"][-1]
+        last["release"] = [i for i in range(1, len(inp["steps"])) if i != last["target"]]
+        return inp
 
 class ObsolescenceLate(Obsolescence):
     """a list derived AFTER the edit - also from a list that is obsolete by then - is a fresh list: not obsolete, silent,
@@ -165,5 +180,6 @@ def harnesses(tier):
     hs.append(ObsolescenceLate(1))
     hs.append(Obsolescence(1))
     hs.append(Obsolescence(2))
+    hs.append(ObsolescenceChained(2, methods=None if not q else ["copy", "slice", "filter", "sort", "unique", "mul", "append", "add", "deepcopy"]))
     if not q: hs.append(Obsolescence(3, methods=["copy", "slice", "filter", "sort", "add", "deepcopy"]))     # all 17 methods at depth 3 exceed 200 000 paths
     return hs
